@@ -32,9 +32,10 @@ theorem c05_method_posts_to_location (opName : String) (op : BindOp) :
        call = "    helpers::send_soap_request_using_client::<_, helpers::NoResponse, _, _>(&self.client, &self.location, credentials, req).await.map(|_| ())\n") := by
   cases h : op.output <;> simp [writeAsyncSoapCall, h]
 
-/-- the address the client is constructed with is the port's address, verbatim (as `reqwest::Url` prints it) -/
+/-- the address the client is constructed with is the port's address (as `reqwest::Url` prints it),
+    written as a string literal whose value is exactly that text (`Props.C14.c14_literal`) -/
 theorem c05_location (s : Service) :
-    (writeService s)[9]? = some ("            location: \"" ++ s.location ++ "\".to_string(),\n") := by
+    (writeService s)[9]? = some ("            location: " ++ rustDebugStr s.location ++ ".to_string(),\n") := by
   simp [writeService]
 
 /-- the body of a direction whose `soap:body` names no part is never a part the binding declares as a
